@@ -1187,6 +1187,15 @@ ecdsa_hash_import__int(ec_curve_p curve, int le, uint8_t *hash, size_t hash_size
     bn_p e) {
 	size_t n_bits, len;
 
+	if (EC_CURVE_ALGO_ECDSA != curve->algo) { /* GOST: no bit truncation, octets are taken as before. */
+		len = MIN(hash_size, EC_CURVE_CALC_BYTES(curve));
+		if (0 != le) {
+			BN_RET_ON_ERR(bn_import_le_bin(e, hash, len));
+		} else {
+			BN_RET_ON_ERR(bn_import_be_bin(e, hash, len));
+		}
+		return (0);
+	}
 	n_bits = bn_calc_bits(&curve->n);
 	len = MIN(hash_size, ((n_bits + 7) / 8));
 	if (0 != le) {
@@ -1194,7 +1203,7 @@ ecdsa_hash_import__int(ec_curve_p curve, int le, uint8_t *hash, size_t hash_size
 	} else {
 		BN_RET_ON_ERR(bn_import_be_bin(e, hash, len));
 	}
-	if (EC_CURVE_ALGO_ECDSA == curve->algo && (len * 8) > n_bits) {
+	if ((len * 8) > n_bits) {
 		bn_r_shift(e, ((len * 8) - n_bits));
 	}
 	return (0);
